@@ -112,7 +112,7 @@ def http_encode(r, version=b"1.0", keep_alive=False, rnd=None, fold=False, host=
         if fold and rnd and b" " in v and rnd.random() < 0.5:
             # LWS folding: CRLF followed by SP/HT stands for the white space itself (only outside quoted strings and comments)
             i = v.index(b" ")
-            if v[:i].count(b"\"") % 2 == 0 and v[:i].count(b"(") == v[:i].count(b")"):
+            if v[:i].replace(b"\\\"", b"").count(b"\"") % 2 == 0 and v[:i].count(b"(") == v[:i].count(b")"):
                 v = v[:i] + b"\r\n" + v[i:]
         lines.append(n + sep + v)
     return b"\r\n".join(lines) + b"\r\n\r\n" + r.body
